@@ -410,6 +410,24 @@ def _sql_kind(sql):
     return 'sql-dml'
 
 
+def _split_script(sql):
+    """the statements of a script; the script stays whole when it manages transactions itself"""
+    import re
+    import sqlite3
+    if re.search(r'\b(begin|savepoint|commit|rollback|end)\b', sql, re.I):
+        return [sql]
+    out, cur = [], ''
+    for piece in re.split(r'(;)', sql):
+        cur += piece
+        if piece == ';' and sqlite3.complete_statement(cur):
+            if cur.strip(' \t\r\n;'):
+                out.append(cur)
+            cur = ''
+    if cur.strip(' \t\r\n;'):
+        out.append(cur)
+    return out or [sql]
+
+
 class _ConnProxy(object):
     def __init__(self, fs, conn, database):
         self._fs = fs
@@ -452,6 +470,9 @@ class _ConnProxy(object):
             fs.event(_sql_kind(sql), self._db)
         return self._retry('exec', lambda: self._conn.execute(sql, *a))
 
+    def executescript(self, sql):
+        return _CursorProxy(self._fs, self._conn.cursor(), self._db).executescript(sql)
+
     def close(self):
         return self._conn.close()
 
@@ -473,11 +494,16 @@ class _CursorProxy(object):
         return proxy._retry('exec', lambda: self._cur.execute(sql, *a))
 
     def executescript(self, sql):
+        # sqlite runs a script statement by statement, each in its own transaction (unless the script opens one):
+        # every statement is an event of its own, so other clients and crash points land BETWEEN them
         fs = self._fs
-        if fs.armed:
-            fs.event('sql-script', self._db)
         proxy = _ConnProxy(fs, None, self._db)
-        return proxy._retry('exec', lambda: self._cur.executescript(sql))
+        out = None
+        for stmt in _split_script(sql):
+            if fs.armed:
+                fs.event('sql-script', self._db)
+            out = proxy._retry('exec', lambda: self._cur.executescript(stmt))
+        return out if out is not None else self._cur
 
     def __iter__(self):
         return iter(self._cur)
